@@ -127,10 +127,12 @@ fn explore_subject(s: &Subject, pairs: bool, rep: &mut Report) {
     }
     if pairs {
         for i in 0..n {
-            for j in i + 1..n.min(i + 40) {
-                for d in devs {
-                    for e in devs {
-                        scheds.push(Schedule::two(i, *d, j, *e));
+            // pairs inside a 12-call window, with the two extreme deviation kinds
+            let ext = [devs[0], devs[devs.len() - 1]];
+            for j in i + 1..n.min(i + 12) {
+                for d in ext {
+                    for e in ext {
+                        scheds.push(Schedule::two(i, d, j, e));
                     }
                 }
             }
@@ -231,7 +233,7 @@ pub fn run(started: Instant) -> i32 {
         rep,
         Meta {
             level: "model_checking",
-            rule: "for each subject (program x 4 layer combos x levels {0,5}) and each side (writer destination; normal reader source; repair source on the intact archive and on its 3/4 and 1/2 prefixes): the run with the default environment (transfer everything) records N calls; then every uniform schedule 'at most k bytes per call' for k in 1..=max request (capped at 300), every single deviation {1 byte, half, all-but-one, Interrupted(sink only)} at every call index (thorough: all pairs within a 40-call window). Oracle: sink side - files read back from the collected bytes equal the reference model; source sides - listing/contents/sizes/hashes, or repair status + recovered files, equal the in-memory result. Replays must observe the recorded call sizes before the first deviation (hard error otherwise). states = distinct (subject, schedule)".to_string(),
+            rule: "for each subject (program x 4 layer combos x levels {0,5}) and each side (writer destination; normal reader source; repair source on the intact archive and on its 3/4 and 1/2 prefixes): the run with the default environment (transfer everything) records N calls; then every uniform schedule 'at most k bytes per call' for k in 1..=max request (capped at 300), every single deviation {1 byte, half, all-but-one, Interrupted(sink only)} at every call index (thorough: all pairs within a 12-call window over the two extreme deviation kinds). Oracle: sink side - files read back from the collected bytes equal the reference model; source sides - listing/contents/sizes/hashes, or repair status + recovered files, equal the in-memory result. Replays must observe the recorded call sizes before the first deviation (hard error otherwise). states = distinct (subject, schedule)".to_string(),
             exhaustive: true,
             bounds: json!({"subjects": subs.len(), "deviation_bound": if thorough { 2 } else { 1 }, "uniform_k": "1..=min(max request, 300)"}),
             assumptions: vec!["scaled constants".to_string(), "call-size replay check skipped on the sink side for multi-file archives (the footer is serialised in HashMap iteration order, which changes the sizes of the last writes)".to_string()],
